@@ -186,7 +186,11 @@ impl<A: Actor> Context<A> {
     where
         A: Handler<M>,
     {
-        crate::WeakCaller::from_weak_tx(std::sync::Weak::clone(&self.weak_tx), self.id)
+        crate::WeakCaller::from_weak_tx(
+            std::sync::Weak::clone(&self.weak_tx),
+            std::sync::Weak::clone(&self.weak_force_tx),
+            self.id,
+        )
     }
 }
 
